@@ -7,7 +7,11 @@ META = {
                    "eviction-candidate predicate as an exact truth table (status x staleness x readers); only candidates reach the lottery and only "
                    "winners are paged out; purge defers while a reader holds the dataset and the last reader's close executes it; legal status "
                    "transitions; the eviction lock is released or handed to >= 1 job on every path and released by the last job in both outcomes, "
-                   "never re-acquired while held; the spill file is completely written before the segment is unlinked and failures are reported. "
+                   "never re-acquired while held; the spill file is completely written before the segment is unlinked and failures are reported; "
+                   "the server loop routes close / purge / get to the Manager with the request's own key and reader id and survives a failing "
+                   "operation; the client attaches exactly the segment and size the server named, notifies its close exactly once with its "
+                   "reader id (writer: none), hands readers a read-only view and retries 'wait' answers; the segment name is derived from "
+                   "the key and is the one recorded. "
                    "Not decided: byte equality after paging, disk failures at every point in time.",
     "assumptions": ["SharedMemory / files / thread pools are opaque effects; `callback` closures analysed with the facts at submission"],
 }
